@@ -200,6 +200,10 @@ func collectVars(ts []*Term) []*Term {
 // searchCounterexample samples inputs that satisfy the facts and falsify the goal.
 func searchCounterexample(facts []*Term, goal *Term, tries int, seed int64) (map[string]string, string) {
 	all := append(append([]*Term(nil), facts...), goal)
+	// quantified assumptions cannot be evaluated on a sample: a sample that ignores them is no counterexample
+	if len(quantifierFree(all)) < len(all) {
+		return nil, "quantified assumptions: no sampling"
+	}
 	vars := collectVars(all)
 	if len(vars) == 0 || len(vars) > 400 {
 		return nil, "too many or no variables"
